@@ -308,6 +308,23 @@ pub fn walk_node_for_targets(targets: &HashSet<Target>, node: Node) -> Vec<Node>
                         ));
                     }
                 }
+                //Walk modifier and base constructor arguments for targets
+                for attribute in box_function_definition.attributes {
+                    match attribute {
+                        pt::FunctionAttribute::BaseOrModifier(_, base) => {
+                            if base.args.is_some() {
+                                for arg in base.args.unwrap() {
+                                    matches.append(&mut walk_node_for_targets(targets, arg.into()));
+                                }
+                            }
+                        }
+
+                        pt::FunctionAttribute::NameValue(_, _, expression) => {
+                            matches.append(&mut walk_node_for_targets(targets, expression.into()));
+                        }
+                        _ => {}
+                    }
+                }
                 //Walk return params for targets
                 for (_, option_parameter) in box_function_definition.returns {
                     if option_parameter.is_some() {
@@ -400,6 +417,23 @@ pub fn walk_node_for_targets(targets: &HashSet<Target>, node: Node) -> Vec<Node>
                             targets,
                             option_parameter.unwrap().ty.into(),
                         ));
+                    }
+                }
+                //Walk modifier and base constructor arguments for targets
+                for attribute in box_function_definition.attributes {
+                    match attribute {
+                        pt::FunctionAttribute::BaseOrModifier(_, base) => {
+                            if base.args.is_some() {
+                                for arg in base.args.unwrap() {
+                                    matches.append(&mut walk_node_for_targets(targets, arg.into()));
+                                }
+                            }
+                        }
+
+                        pt::FunctionAttribute::NameValue(_, _, expression) => {
+                            matches.append(&mut walk_node_for_targets(targets, expression.into()));
+                        }
+                        _ => {}
                     }
                 }
                 //Walk return params for targets
@@ -588,7 +622,7 @@ pub fn walk_node_for_targets(targets: &HashSet<Target>, node: Node) -> Vec<Node>
                 matches.append(&mut walk_node_for_targets(targets, expression.into()));
             }
 
-            pt::Statement::Try(_, expression, option_paramlist_box_statement, _) => {
+            pt::Statement::Try(_, expression, option_paramlist_box_statement, catch_clauses) => {
                 matches.append(&mut walk_node_for_targets(targets, expression.into()));
 
                 if option_paramlist_box_statement.is_some() {
@@ -604,6 +638,24 @@ pub fn walk_node_for_targets(targets: &HashSet<Target>, node: Node) -> Vec<Node>
                     }
 
                     matches.append(&mut walk_node_for_targets(targets, box_statement.into()));
+                }
+
+                for catch_clause in catch_clauses {
+                    match catch_clause {
+                        pt::CatchClause::Simple(_, option_param, statement) => {
+                            if option_param.is_some() {
+                                matches.append(&mut walk_node_for_targets(
+                                    targets,
+                                    option_param.unwrap().ty.into(),
+                                ));
+                            }
+                            matches.append(&mut walk_node_for_targets(targets, statement.into()));
+                        }
+                        pt::CatchClause::Named(_, _, param, statement) => {
+                            matches.append(&mut walk_node_for_targets(targets, param.ty.into()));
+                            matches.append(&mut walk_node_for_targets(targets, statement.into()));
+                        }
+                    }
                 }
             }
 
@@ -840,6 +892,19 @@ pub fn walk_node_for_targets(targets: &HashSet<Target>, node: Node) -> Vec<Node>
 
             pt::Expression::PostDecrement(_, box_expression) => {
                 matches.append(&mut walk_node_for_targets(targets, box_expression.into()));
+            }
+
+            pt::Expression::PreIncrement(_, box_expression) => {
+                matches.append(&mut walk_node_for_targets(targets, box_expression.into()));
+            }
+
+            pt::Expression::PreDecrement(_, box_expression) => {
+                matches.append(&mut walk_node_for_targets(targets, box_expression.into()));
+            }
+
+            pt::Expression::Power(_, box_expression, box_expression_1) => {
+                matches.append(&mut walk_node_for_targets(targets, box_expression.into()));
+                matches.append(&mut walk_node_for_targets(targets, box_expression_1.into()));
             }
 
             pt::Expression::PostIncrement(_, box_expression) => {
